@@ -1208,6 +1208,7 @@ func (ld *loader) spotCheckRoots(ctx context.Context, rs *modrequirements.Requir
 
 	work := par.NewQueue(runtime.GOMAXPROCS(0))
 	for m := range mods {
+		simhook.Label(m.String())
 		work.Add(func() {
 			if ctx.Err() != nil {
 				return
